@@ -3,7 +3,7 @@
 //!
 //! op lines (decimal integers, booleans 0/1; node ids are ranks 1..NK of the pool keys in `NodeId` order):
 //!   reset
-//!   ca <scid> <n1> <n2> <sameBtc> <chainOk> <verify> <sN1> <sN2> <sB1> <sB2> <utxo: n|u|v<sats>> <now>
+//!   ca <scid> <n1> <n2> <sameBtc> <chainOk> <verify> <sN1> <sN2> <sB1> <sB2> <utxo: n|u|v<sats>|w<sats>> <now>   (w = TxOut paying to another script)
 //!        (sX = 0: that signature does not verify against the key of its slot; HOW it is forged is a function of the
 //!         line: Ctx::forgery_style(scid, n1, n2, sameBtc), see build_ca)
 //!   cp <scid> <cap|-> <recv> <n1> <n2>                 add_channel_from_partial_announcement
@@ -76,7 +76,8 @@ struct Ctx {
 }
 
 #[derive(Clone, Copy, PartialEq, Debug)]
-enum Utxo { NoLookup, Value(u64), UnknownTx, /// UtxoResult::Async with the fresh future <fid> (phases F/G only)
+enum Utxo { NoLookup, Value(u64), UnknownTx, /// the lookup answers a TxOut of that many sats paying to ANOTHER script (2-of-2 of bitcoin_key_1 and an unrelated key)
+	WrongScript(u64), /// UtxoResult::Async with the fresh future <fid> (phases F/G only)
 	Async(u64) }
 
 /// what the scripted lookup answers next
@@ -131,7 +132,7 @@ impl Op {
 	fn line(&self, t0: u64) -> String {
 		match self {
 			Op::Ca { scid, n1, n2, same_btc, chain_ok, verify, sigs, utxo } => format!("ca {} {} {} {} {} {} {} {} {} {} {} {}", scid, n1, n2, b(*same_btc), b(*chain_ok), b(*verify), b(sigs[0]), b(sigs[1]), b(sigs[2]), b(sigs[3]),
-				match utxo { Utxo::NoLookup => "n".to_string(), Utxo::UnknownTx => "u".to_string(), Utxo::Value(v) => format!("v{}", v), Utxo::Async(f) => format!("a{}", f) }, t0),
+				match utxo { Utxo::NoLookup => "n".to_string(), Utxo::UnknownTx => "u".to_string(), Utxo::Value(v) => format!("v{}", v), Utxo::WrongScript(v) => format!("w{}", v), Utxo::Async(f) => format!("a{}", f) }, t0),
 			Op::Cp { scid, cap, recv, n1, n2 } => format!("cp {} {} {} {} {}", scid, cap.map(|c| c.to_string()).unwrap_or("-".into()), recv, n1, n2),
 			Op::Cu { scid, dir, disabled, ts, cltv, min, max, base, prop, chain_ok, dont_fwd, verify, signer } => format!("cu {} {} {} {} {} {} {} {} {} {} {} {} {}", scid, b(*dir), b(*disabled), ts, cltv, min, max, base, prop, b(*chain_ok), b(*dont_fwd), b(*verify), signer),
 			Op::Na { node, ts, payload, verify, sig_ok } => format!("na {} {} {} {} {}", node, ts, payload, b(*verify), b(*sig_ok)),
@@ -140,7 +141,7 @@ impl Op {
 			Op::Tc { scid } => format!("tc {} {}", scid, t0),
 			Op::Tn { id } => format!("tn {} {}", id, t0),
 			Op::Pr { t } => format!("pr {}", t),
-			Op::Rs { fid, res } => format!("rs {} {}", fid, match res { Utxo::Value(v) => format!("v{}", v), _ => "u".to_string() }),
+			Op::Rs { fid, res } => format!("rs {} {}", fid, match res { Utxo::Value(v) => format!("v{}", v), Utxo::WrongScript(v) => format!("w{}", v), _ => "u".to_string() }),
 			Op::Pc => format!("pc {}", t0),
 			Op::Tm => "tm".to_string(),
 			Op::Rgs { .. } => unreachable!("rgs lines need the key parities: Ctx::rgs_line"),
@@ -162,6 +163,7 @@ fn err_kind(e: &LightningError) -> String {
 		else if s.starts_with("Invalid signature on") { "BadSig" }
 		else if s.contains("was removed from our network graph recently") { "RecentlyRemoved" }
 		else if s == "Channel announced without corresponding UTXO entry" { "UtxoUnknownTx" }
+		else if s.starts_with("Channel announcement key (") && s.contains("didn't match on-chain script") { "UtxoScriptMismatch" }
 		else if s == "Already have knowledge of channel" { "AlreadyKnown" }
 		else if s == "Ignoring channel_update with dont_forward bit set" { "DontForward" }
 		else if s == "htlc_maximum_msat is larger than maximum possible msats" { "HtlcMaxTooLarge" }
@@ -303,7 +305,8 @@ impl Ctx {
 				let bk1 = PublicKey::from_secret_key(&self.secp, &self.btc_sk[0]);
 				let bk2 = PublicKey::from_secret_key(&self.secp, &self.btc_sk[1]);
 				if let Utxo::Async(_) = utxo { unreachable!("async lookups need an AsyncEnv"); }
-				let stub = match utxo { Utxo::Value(v) => Stub(Ok(TxOut { value: Amount::from_sat(*v), script_pubkey: make_funding_redeemscript(&bk1, &bk2).to_p2wsh() })), _ => Stub(Err(UtxoLookupError::UnknownTx)) };
+				let _ = (&bk1, &bk2);
+				let stub = Stub(self.lookup_result(utxo));
 				let lookup: Option<&Stub> = if *utxo == Utxo::NoLookup { None } else { Some(&stub) };
 				if *verify {
 					let sync = P2PGossipSync::new(g, lookup, &LOGGER);
@@ -344,7 +347,10 @@ impl Ctx {
 	fn lookup_result(&self, res: &Utxo) -> Result<TxOut, UtxoLookupError> {
 		let bk1 = PublicKey::from_secret_key(&self.secp, &self.btc_sk[0]);
 		let bk2 = PublicKey::from_secret_key(&self.secp, &self.btc_sk[1]);
-		match res { Utxo::Value(v) => Ok(TxOut { value: Amount::from_sat(*v), script_pubkey: make_funding_redeemscript(&bk1, &bk2).to_p2wsh() }), _ => Err(UtxoLookupError::UnknownTx) }
+		match res {
+			Utxo::Value(v) => Ok(TxOut { value: Amount::from_sat(*v), script_pubkey: make_funding_redeemscript(&bk1, &bk2).to_p2wsh() }),
+			Utxo::WrongScript(v) => Ok(TxOut { value: Amount::from_sat(*v), script_pubkey: make_funding_redeemscript(&bk1, &PublicKey::from_secret_key(&self.secp, &self.btc_other)).to_p2wsh() }),
+			_ => Err(UtxoLookupError::UnknownTx) }
 	}
 	fn event_text(&self, ev: &MessageSendEvent) -> String {
 		match ev {
@@ -534,7 +540,7 @@ impl Gen {
 		if n1 > n2 { std::mem::swap(&mut n1, &mut n2); }
 		if n1 == n2 { if n2 < NK as u64 { n2 += 1 } else { n1 -= 1 } }
 		let mut op = (false, true, true, [true; 4]);
-		let utxo = match rng.below(10) { 0..=5 => Utxo::NoLookup, 6 => Utxo::UnknownTx, 7 => Utxo::Value(MAX_VALUE_MSAT / 1000 + rng.below(2)), _ => Utxo::Value(*rng.pick(&[1000u64, 5, 2_000_000])) };
+		let utxo = match rng.below(10) { 0..=5 => Utxo::NoLookup, 6 => if rng.chance(1, 2) { Utxo::UnknownTx } else { Utxo::WrongScript(*rng.pick(&[1000u64, 2_000_000])) }, 7 => Utxo::Value(MAX_VALUE_MSAT / 1000 + rng.below(2)), _ => Utxo::Value(*rng.pick(&[1000u64, 5, 2_000_000])) };
 		if !valid_bias || rng.chance(3, 10) {
 			match rng.below(9) {
 				0 => { std::mem::swap(&mut n1, &mut n2); },
@@ -616,6 +622,8 @@ impl<'a> Runner<'a> {
 		if forged && before != after { self.rec.oracle_fail(format!("wrongly signed message changed the graph: `{}` => {}; before: {}; after: {}", line, ans, before, after)); }
 		// a NON-permanent payment failure never changes the graph (handle_network_update acts only `if is_permanent`)
 		if matches!(op, Op::Tc { .. } | Op::Tn { .. }) && before != after { self.rec.oracle_fail(format!("non-permanent payment failure changed the graph: `{}` => {}; before: {}; after: {}", line, ans, before, after)); }
+		// a lookup answer that pays to ANOTHER script never validates an announcement (utxo.rs check_channel_announcement)
+		if let Op::Ca { utxo: Utxo::WrongScript(_), .. } = op { if ans == "ok" || before != after { self.rec.oracle_fail(format!("channel_announcement accepted although the looked-up UTXO pays to another script than the 2-of-2 of the announced bitcoin keys: `{}` => {}; before: {}; after: {}", line, ans, before, after)); } }
 		// a rejected message never changes the graph
 		if op.is_msg() && ans.starts_with("err") && before != after { self.rec.oracle_fail(format!("rejected message changed the graph: `{}` => {}; before: {}; after: {}", line, ans, before, after)); }
 		// stored last_update never decreases, an equal timestamp never replaces
@@ -747,6 +755,25 @@ fn main() {
 					r.dump(&g, true);
 				}
 			}
+		}
+		// the looked-up UTXO pays to another script: refused synchronously, and never enters the graph when the answer
+		// arrives through a future either (utxo.rs check_channel_announcement / resolve_single_future)
+		for asynchronous in [false, true] {
+			let g = new_graph();
+			r.rec.directive("reset"); r.rec.directive("unordered");
+			let env = AsyncEnv::new(&g, false);
+			let ca = |utxo| Op::Ca { scid: 9, n1: 1, n2: 2, same_btc: false, chain_ok: true, verify: true, sigs: [true; 4], utxo };
+			if asynchronous {
+				r.exec_in(&g, Some(&env), &ca(Utxo::Async(1)), "S:");
+				r.exec_in(&g, Some(&env), &Op::Rs { fid: 1, res: Utxo::WrongScript(1000) }, "S:");
+				r.exec_in(&g, Some(&env), &Op::Pc, "S:");
+			} else {
+				let ans = r.exec_in(&g, Some(&env), &ca(Utxo::WrongScript(1000)), "S:");
+				if !ans.starts_with("err UtxoScriptMismatch") { r.rec.oracle_fail(format!("a lookup answer paying to another script was not refused as a script mismatch: {}", ans)); }
+			}
+			let empty = { let ro = g.read_only(); ro.channels().is_empty() && ro.nodes().is_empty() };
+			if !empty { r.rec.oracle_fail(format!("channel_announcement entered the graph although the looked-up UTXO ({}) pays to another script than the 2-of-2 of the announced bitcoin keys; graph: {}", if asynchronous { "answered through a UtxoFuture" } else { "answered synchronously" }, ctx.dump(&g, true))); }
+			r.dump(&g, true);
 		}
 		stats.insert("signature_matrix_forged_channel_announcements", n_forged);
 		stats.insert("signature_matrix_untampered_channel_announcements", n_valid);
@@ -978,7 +1005,7 @@ fn main() {
 					0..=21 => {
 						let mut a = if !anns.is_empty() && rng.chance(1, 4) { rng.pick(&anns).clone() } else { gen_f.ca(&mut rng, true) };
 						if let Op::Ca { utxo, scid, n1, n2, .. } = &mut a {
-							*utxo = match rng.below(20) { 0..=10 => { let f = next_fid; next_fid += 1; Utxo::Async(f) }, 11..=13 => Utxo::NoLookup, 14..=17 => Utxo::Value(*rng.pick(&[1000u64, 5, 2_000_000])), _ => Utxo::UnknownTx };
+							*utxo = match rng.below(20) { 0..=10 => { let f = next_fid; next_fid += 1; Utxo::Async(f) }, 11..=13 => Utxo::NoLookup, 14..=17 => Utxo::Value(*rng.pick(&[1000u64, 5, 2_000_000])), 18 => Utxo::WrongScript(1000), _ => Utxo::UnknownTx };
 							ann_nodes.insert(*scid, (*n1, *n2));
 						}
 						anns.push(a.clone());
@@ -1001,7 +1028,7 @@ fn main() {
 					62..=77 => Op::Na { node: 1 + rng.below(NK as u64), ts: tb + rng.below(8), payload: rng.below(1 << 24), verify: !rng.chance(1, 8), sig_ok: !rng.chance(1, 6) },
 					78..=87 if !all_fids.is_empty() || !open.is_empty() => {
 						let fid = if !open.is_empty() && !rng.chance(1, 12) { let i = rng.below(open.len() as u64) as usize; open.remove(i) } else if !all_fids.is_empty() { *rng.pick(&all_fids) } else { open.remove(0) };
-						Op::Rs { fid, res: if rng.chance(3, 10) { Utxo::UnknownTx } else { Utxo::Value(*rng.pick(&[1000u64, 5, 2_000_000])) } }
+						Op::Rs { fid, res: if rng.chance(3, 10) { if rng.chance(1, 2) { Utxo::UnknownTx } else { Utxo::WrongScript(1000) } } else { Utxo::Value(*rng.pick(&[1000u64, 5, 2_000_000])) } }
 					},
 					88..=95 => Op::Pc,
 					96 => { let scid = 1 + rng.below(3); if rng.chance(1, 4) { Op::Tc { scid } } else { Op::Fc { scid } } },
@@ -1180,7 +1207,7 @@ fn main() {
 	if elapsed >= WINDOW - 600 { r.rec.oracle_fail(format!("harness ran {}s: wall-clock canonicalisation window exceeded (machinery, not the library)", elapsed)); }
 	rec.notes.insert("rule".into(), format!("per message set: phase A = random interleaving of signed/unsigned/forged/stale/duplicate/conflicting gossip with permanent failures and pruning at threshold times (differential + oracles: forged or rejected message leaves the graph unchanged, last_update monotone); phase B = {} random admissible orders of one message multiset with distinct timestamps (oracle: equal dumps and byte-identical canonical encodings) ; phase C = one random inadmissible order; phase A also applies generated version-2 rapid-gossip-sync snapshots through RapidGossipSync::update_network_graph_no_std (oracle: no stored update / node announcement replaced by older-or-equal data); phase E = snapshots applied twice (idempotence oracle), tombstone and incremental-order scenarios; write/read round trip after A and B; phase F = asynchronous UTXO lookups (scripted UtxoLookup answering UtxoResult::Async, futures resolved and check_resolved_futures run at scripted points, valid / wrongly signed / re-signed gossip in between; oracle after every op: every stored signed message verifies with secp256k1 against the announced keys); phase G = all-valid scripts delivered with asynchronous vs synchronous answers must give equal graphs; phase H = histories with a restart (write, read, continue on the graph read back) in the middle. phase S = signature matrix of channel_announcement: every non-empty subset of the four signatures forged x 3 forgery styles (unrelated key / holder of the neighbour announced key / right key over another message) x 4 verifying entry paths on an empty graph (oracle: refused as invalid signature, graph stays empty; the untampered message is accepted). In every phase a signature flagged 0 on a `ca` line is forged in the style (scid+n1+n2) % 3 (0 when both bitcoin keys or both nodes coincide). distinct = distinct op-line texts", n_orders));
 	for (k, v) in stats.iter() { rec.notes.insert((*k).into(), v.to_string()); }
-	rec.notes.insert("not_exercised".into(), "production-only wall-clock freshness test of update_channel_internal (cfg not(_test_utils)); asynchronous UTXO lookups: dropped UtxoFutures (Weak::upgrade failure arms), a future shared by two lookups, UnknownChain / wrong-script answers, rapid-gossip-sync snapshots while a lookup is pending; rapid-gossip-sync: version-1 snapshots, node addresses / feature changes (not part of the dump), the forwards-compatibility additional-data paths of updates".into());
+	rec.notes.insert("not_exercised".into(), "production-only wall-clock freshness test of update_channel_internal (cfg not(_test_utils)); asynchronous UTXO lookups: dropped UtxoFutures (Weak::upgrade failure arms), a future shared by two lookups, UnknownChain answers, rapid-gossip-sync snapshots while a lookup is pending; rapid-gossip-sync: version-1 snapshots, node addresses / feature changes (not part of the dump), the forwards-compatibility additional-data paths of updates".into());
 	rec.notes.insert("node_channel_list_order".into(), "NodeInfo.channels is kept in arrival order by the library (and compared in that order by NodeInfo::eq / written in that order); the recorded dumps of phases A-E and H print it in that order and the model reproduces it (Model/GossipOrder.lean); the order-independence oracle and phases F/G compare it as a set".into());
 	rec.finish();
 }
